@@ -6,7 +6,7 @@
    on every run by harness/gen_C03.py (gradient AND logd differences of the same object). *)
 From CV Require Import Base.Tac Base.LinAlg Base.QcLin Model.C03_GradR Model.C03_GradQ.
 From CV Require Import Proofs.C03_GradR Proofs.C03_Quad Proofs.C03_QuadR Proofs.C03_GradQ Proofs.C03_Sym Proofs.C03_LikGen Proofs.C03_Lik Proofs.C03_SymR Proofs.C03_Gallery.
-From CV Require Import Model.C03_Support Proofs.C03_Gram Proofs.C03_GramR Proofs.C03_Support Proofs.C03_Compose Proofs.C03_Chain Model.C03_ChainR Proofs.C03_ChainR Proofs.C03_Forms.
+From CV Require Import Model.C03_Support Proofs.C03_Gram Proofs.C03_GramR Proofs.C03_Support Proofs.C03_Compose Proofs.C03_Chain Model.C03_ChainR Proofs.C03_ChainR Proofs.C03_Forms Proofs.C03_Ties.
 From Coq Require Import Reals QArith Qcanon Qreals.
 From Coquelicot Require Import Coquelicot.
 
@@ -614,6 +614,25 @@ Theorem C03_gaussian_model_line_all_forms : forall n form p (P : list (list Qc))
   (quad_logk P m x + t * qdot (quad_grad P m x) d - half * (t * t) * qdot d (qmatvec P d))%Qc.
 Proof. exact quad_model_line_all_forms. Qed.
 Print Assumptions C03_gaussian_model_line_all_forms.
+
+(* ---------------------------------------------------------------------------------------------
+   12. (third deepening round) links that were held by correspondence only.  The executable full-covariance Lognormal
+       model (ln x supplied as the certificate lx) and the real-valued definitions of C03_lognormal_full are ONE
+       generic-ring definition ... *)
+Theorem C03_lognormal_model_is_generic : forall (P : list (list Qc)) (m x lx : list Qc) (Pr : list (list R)) (mr xr : list R),
+  (lognormal_grad P m x lx = glognormal_grad Qc 0%Qc Qcplus Qcmult Qcminus Qcopp Qcinv 1%Qc P m x lx /\
+   lognormal_logk P m lx = glognormal_logk Qc 0%Qc Qcplus Qcmult Qcminus Qcopp C03_GradQ.half P m lx) /\
+  (rlognormal_grad Pr mr xr = glognormal_grad R 0%R Rplus Rmult Rminus Ropp Rinv 1%R Pr mr xr (map ln xr) /\
+   rlognormal_logk Pr mr xr = glognormal_logk R 0%R Rplus Rmult Rminus Ropp (/ 2)%R Pr mr (map ln xr)).
+Proof. intros. split; [apply lognormal_model_is_generic | apply lognormal_real_is_generic]. Qed.
+Print Assumptions C03_lognormal_model_is_generic.
+
+(* ... and the rational forward-difference quotient the FD cases evaluate is fd_coord of the real-valued FD theorem *)
+Theorem C03_fd_model_is_fd_coord : forall (F : list R -> R) (xs : list R) (eps f0 fi : Q) (i : nat),
+  ~ (eps == 0)%Q -> Q2R f0 = F xs -> Q2R fi = F (bump i (Q2R eps) xs) ->
+  Q2R (fd_quot eps f0 fi) = fd_coord F xs (Q2R eps) i.
+Proof. exact fd_quot_is_fd_coord. Qed.
+Print Assumptions C03_fd_model_is_fd_coord.
 
 (* non-vacuity: the Cauchy hypotheses hold at loc = 1/2, scale = 2, x = 3/4, and a symmetric form exists *)
 Example C03_example :
